@@ -78,7 +78,7 @@ fn content_strategy(tier: Tier) -> BoxedStrategy<Vec<u8>> {
     let max = tier.pick(6_000usize, 20_480usize);
     let line = prop::sample::select(vec![
         &b"plain line"[..], b"", b"$NetBSD$", b"$NetBSD: patch-aa,v 1.3 2020/01/01 x Exp $", b"+added", b"-removed", b"$NetBS", b"x $NetBSD y",
-        b"--- a.orig", b"+++ a", b"@@ -1 +1 @@",
+        b"--- a.orig", b"+++ a", b"@@ -1 +1 @@", b"$NetBSD", b"# ends with $NetBSD", b"$NetBS$NetBSD", b"NetBSD$", b"\xff$NetBSD\xfe",
     ]);
     prop_oneof![
         1 => Just(vec![]),
@@ -508,7 +508,7 @@ pub fn property() -> Property {
             "patch files are recorded under their file name only; recorded names classify unambiguously",
             "the file system accepts non-UTF-8 file names (Linux)",
         ],
-        streams: vec![random_stream("files", "file on disk x recorded entries x all six algorithms", case_strategy, |t| t.pick(2_500, 60_000), check)],
+        streams: vec![random_stream("files", "file on disk x recorded entries x all six algorithms", case_strategy, |t| t.pick(6_000, 60_000), check)],
         selfcheck: || {
             md::selfcheck()?;
             mh::selfcheck()
